@@ -62,17 +62,17 @@ PROPS["C10"] = dict(
 )
 
 PROPS["C06"] = dict(
-    modules=["Proofs.C06"],
-    theorems=['Goflow.C06.templateKey_injective', 'Goflow.C06.store_refines', 'Goflow.C06.latest_wins', 'Goflow.C06.isolation', 'Goflow.C06.addTemplates_other', 'Goflow.C06.unknown_template', 'Goflow.C06.exporter_isolation', 'Goflow.C06.templateKey_source'],
+    modules=["Proofs.C06", "Proofs.C08Trans"],
+    theorems=['Goflow.C06.templateKey_injective', 'Goflow.C06.store_refines', 'Goflow.C06.latest_wins', 'Goflow.C06.isolation', 'Goflow.C06.addTemplates_other', 'Goflow.C06.unknown_template', 'Goflow.C06.exporter_isolation', 'Goflow.C06.templateKey_source', 'Goflow.C08Trans.templateKey_eq'],
     generators=[dict(name="C06", quick=120, thorough=3000)],
     harness=["impl"],
     level_text="Theorems: the template store refines a map keyed by (version, domain, id) per exporter; latest announcement wins; announcements never affect another key or exporter. Histories (re-announcements, broken-tail datagrams, foreign ids) are the tie.",
 )
 
 PROPS["C08"] = dict(
-    modules=["Proofs.C08", "Proofs.C08Full"],
+    modules=["Proofs.C08", "Proofs.C08Full", "Proofs.C08Trans"],
     theorems=['Goflow.C08.cases_match', 'Goflow.C08.decodeUNumber_eq', 'Goflow.C08.decodeUNumber_long', 'Goflow.C08.decodeUNumberLE_eq', 'Goflow.C08.writeDecoded_trunc', 'Goflow.C08.full_value', 'Goflow.C08.v9_time', 'Goflow.C08.ipfix_time', 'Goflow.C08.v5_sampling_14bit', 'Goflow.C08.v5_record_eq_ref',
-              'Goflow.C08.record_eq_ref', 'Goflow.C08.convertFields_record_eq_ref', 'Goflow.C08.packet_eq_ref', 'Goflow.C08.recordOK_of_check', 'Goflow.C08.apply_cases', 'Goflow.C08.legacy_source_matches'],
+              'Goflow.C08.record_eq_ref', 'Goflow.C08.convertFields_record_eq_ref', 'Goflow.C08.packet_eq_ref', 'Goflow.C08.recordOK_of_check', 'Goflow.C08.apply_cases', 'Goflow.C08.legacy_source_matches', 'Goflow.C08Trans.decodeUNumber_trans_eq', 'Goflow.C08Trans.decodeUNumberLE_trans_eq', 'Goflow.C08Trans.convertLegacyRecord_eq', 'Goflow.C08Trans.templateKey_eq'],
     generators=[dict(name="C08", quick=400, thorough=40000)],
     harness=["impl"],
     level_text="Theorems: the conversion's case table equals the table regenerated from the source; v5_record_eq_ref; record_eq_ref / packet_eq_ref — for every v9 / IPFIX record of the documented domain the conversion equals the documented reference, whatever the template order; number decoding at every width; time rules.",
@@ -124,7 +124,7 @@ PROPS["C13"] = dict(
 )
 
 PROPS["C14"] = dict(
-    modules=["Proofs.C14", "Proofs.C14Bits", "Proofs.C14BitsFull", "Proofs.C14Map", "Proofs.C14Compile", "Proofs.C14Compose"],
+    modules=["Proofs.C14", "Proofs.C14Bits", "Proofs.C14BitsFull", "Proofs.C14Map", "Proofs.C14Compile", "Proofs.C14Compose", "Proofs.C14Trans"],
     theorems=["Goflow.C14.key_function", "Goflow.C14.no_key", "Goflow.C14.custom_varint_readback", "Goflow.C14.custom_bytes_readback",
               "Goflow.C14.mapCustom_varint", "Goflow.C14.getBytes_total", "Goflow.C14.extract_aligned", "Goflow.C14.getBytes_aligned",
               "Goflow.C14.getBytes_eq_extract_aligned", "Goflow.C14.getBytes_eq_extract", "Goflow.C14.toBits_shiftPass",
@@ -136,7 +136,8 @@ PROPS["C14"] = dict(
               "Goflow.C14Compile.file_element_unmapped", "Goflow.C14Compile.file_layer_entries",
               "Goflow.C14Compose.runParser_unk", "Goflow.C14Compose.parsePacket_layers_commute", "Goflow.C14Compose.parsePacket_layers_sane",
               "Goflow.C14Compose.parsePacket_unmatched", "Goflow.C14Compose.packetTrace_frame", "Goflow.C14Compose.full_capture_mapped",
-              "Goflow.C14Compose.full_capture_mapped_sane", "Goflow.C14Compose.full_capture_unmatched", "Goflow.C14Compose.file_full_capture"],
+              "Goflow.C14Compose.full_capture_mapped_sane", "Goflow.C14Compose.full_capture_unmatched", "Goflow.C14Compose.file_full_capture",
+              "Goflow.C14Trans.getBytes_trans_eq", "Goflow.C14Trans.getBytes_trans_eq_nonneg", "Goflow.C14Trans.getBytes_panic"],
     generators=[dict(name="C14", quick=70, thorough=1260)],
     harness=["impl"],
     level_text="Theorems: getBytes_eq_extract (GetBytes = bit-list reference for every buffer, offset, length, mode), mapCustom_spec, mapLayerEntries_spec / mapLayerKeys_spec, element_mapping_spec, custom_record_spec, custom_varint_readback / custom_bytes_readback, key_function. PARTIAL: the compile step of the configuration and the whole-frame composition of layer mappings are tied by the differential run and the reference oracles (bit reference incl. exhaustive digests over all 1- and 2-byte buffers), not proved.",
